@@ -852,6 +852,11 @@ func genKv(g *Gen) {
 		s.ffPrefixIter()
 		s.readerSpansCommit()
 	}
+	// concurrent writers (a database of their own; state-independent): serialisation of write transactions
+	for i := g.Scale(6, 60); i > 0; i-- {
+		g.Reset()
+		g.Op("concurrent-writers", "conc %d %d", 2+r.Intn(3), g.Scale(150, 600)+r.Intn(50))
+	}
 	for i := 0; i < nHist; i++ {
 		maxOps := 60
 		if !g.Quick() {
